@@ -1,5 +1,9 @@
 pub mod c01;
+pub mod c02;
+pub mod c03;
+pub mod c05;
 pub mod c08;
+pub mod c09;
 pub mod c11;
 pub mod c13;
 pub mod c14;
@@ -11,7 +15,11 @@ use crate::report::Ctx;
 pub fn run(ctx: &mut Ctx) -> bool {
     match ctx.prop.as_str() {
         "C01" => c01::run(ctx),
+        "C02" => c02::run(ctx),
+        "C03" => c03::run(ctx),
+        "C05" => c05::run(ctx),
         "C08" => c08::run(ctx),
+        "C09" => c09::run(ctx),
         "C11" => c11::run(ctx),
         "C13" => c13::run(ctx),
         "C14" => c14::run(ctx),
